@@ -30,6 +30,7 @@ import (
 	"github.com/deadsy/sdfx/sdf"
 	. "verifharness/kit"
 	"verifharness/kit/pipe"
+	"verifharness/sysgen"
 )
 
 func main() {
@@ -37,7 +38,7 @@ func main() {
 		childMain(os.Args[2])
 		return
 	}
-	Main("C12", checkC12, GenBufferConsts)
+	Main("C12", checkC12, GenBufferConsts, sysgen.Gen)
 }
 
 // ---------------------------------------------------------------- what a child does
@@ -54,6 +55,8 @@ type Spec struct {
 	CellsHist []int    `json:"cells_hist,omitempty"` // leak: mesh cells of each successive render (default Cells)
 	Steps     []Step   `json:"steps,omitempty"`      // history: one process performs these calls one after the other
 	Warmup    int      `json:"warmup,omitempty"`     // history: the goroutine count must not grow after this many steps
+	WarmMax   bool     `json:"warm_max,omitempty"`   // history: ... beyond the LARGEST count seen during the warm-up (env.go)
+	Label     string   `json:"label,omitempty"`      // history: name of the generator stratum
 	TimeoutMs int      `json:"timeout_ms"`
 	Dir       string   `json:"dir,omitempty"` // scratch directory (set by the parent)
 }
@@ -65,6 +68,13 @@ type Step struct {
 	Cells    int    `json:"cells,omitempty"`
 	Target   string `json:"target"`          // ok devfull nodir isdir rlimit
 	Limit    int64  `json:"limit,omitempty"` // rlimit: RLIMIT_FSIZE (soft) during this step only
+	// run-time environment of the call (env.go); zero values: as the step before left it
+	Procs   int    `json:"procs,omitempty"`    // runtime.GOMAXPROCS(n) before the call
+	Flip    string `json:"flip,omitempty"`     // GOMAXPROCS changed during the call: "2,6" by the shape under evaluation, "~2,6" by a free-running goroutine
+	Par     int    `json:"par,omitempty"`      // this many concurrent calls
+	Shape   string `json:"shape,omitempty"`    // box big twin flat (default: unit sphere / circle)
+	GC      int    `json:"gc,omitempty"`       // debug.SetGCPercent(n) before the call
+	PauseMs int    `json:"pause_ms,omitempty"` // idle time before the call
 }
 
 func (st Step) String() string {
@@ -72,7 +82,7 @@ func (st Step) String() string {
 	if st.Target == "rlimit" {
 		s += fmt.Sprint(st.Limit)
 	}
-	return s
+	return s + st.envString()
 }
 
 type Result struct {
@@ -82,8 +92,9 @@ type Result struct {
 	FileSize   int64   `json:"file_size"`         // -1: no regular file
 	Count      int64   `json:"count"`             // STL header count, -1: not readable
 	NumCPU     int     `json:"ncpu"`
-	Base       int     `json:"base"`       // goroutines before the first render
-	Goroutines []int   `json:"goroutines"` // after each render
+	Base       int     `json:"base"`            // goroutines before the first render
+	Goroutines []int   `json:"goroutines"`      // after each render
+	Procs      []int   `json:"procs,omitempty"` // history: GOMAXPROCS in force after each call
 	Err        string  `json:"err,omitempty"`
 }
 
@@ -149,17 +160,21 @@ func targetPath(sp *Spec, n int) string {
 }
 
 func callSink(sp *Spec, renderer string, path string) {
+	callSinkShapes(sp, renderer, path, shape3(), shape2())
+}
+
+func callSinkShapes(sp *Spec, renderer string, path string, s3 sdf.SDF3, s2 sdf.SDF2) {
 	switch sp.Sink {
 	case "stl":
-		render.ToSTL(shape3(), path, renderer3(renderer, sp.Cells, sp.Writes))
+		render.ToSTL(s3, path, renderer3(renderer, sp.Cells, sp.Writes))
 	case "3mf":
-		render.To3MF(shape3(), path, renderer3(renderer, sp.Cells, sp.Writes))
+		render.To3MF(s3, path, renderer3(renderer, sp.Cells, sp.Writes))
 	case "tri":
-		render.ToTriangles(shape3(), renderer3(renderer, sp.Cells, sp.Writes))
+		render.ToTriangles(s3, renderer3(renderer, sp.Cells, sp.Writes))
 	case "dxf":
-		render.ToDXF(shape2(), path, renderer2(renderer, sp.Cells, sp.Writes))
+		render.ToDXF(s2, path, renderer2(renderer, sp.Cells, sp.Writes))
 	case "svg":
-		render.ToSVG(shape2(), path, renderer2(renderer, sp.Cells, sp.Writes))
+		render.ToSVG(s2, path, renderer2(renderer, sp.Cells, sp.Writes))
 	default:
 		panic("unknown sink " + sp.Sink)
 	}
@@ -178,6 +193,29 @@ func settledGoroutines() int {
 		}
 	}
 	return last
+}
+
+// settledAfter: the settled count after one more call of a history.  A reading above everything
+// seen so far is looked at again a few times (a goroutine on its way out, a finalizer running):
+// goroutines that ARE left behind stay, so the smallest reading is the one that counts.
+func settledAfter(before []int) int {
+	n := settledGoroutines()
+	if len(before) == 0 {
+		return n
+	}
+	ref := before[0]
+	for _, b := range before {
+		if b > ref {
+			ref = b
+		}
+	}
+	for try := 0; try < 4 && n > ref; try++ {
+		time.Sleep(10 * time.Millisecond)
+		if m := settledGoroutines(); m < n {
+			n = m
+		}
+	}
+	return n
 }
 
 func childMain(arg string) {
@@ -226,10 +264,15 @@ func childMain(arg string) {
 					res.Err = "setrlimit: " + err.Error()
 					return
 				}
-				s2 := sp
-				s2.Sink, s2.Target, s2.Cells = st.Sink, st.Target, st.Cells
-				callSink(&s2, st.Renderer, targetPath(&s2, i))
-				res.Goroutines = append(res.Goroutines, settledGoroutines())
+				if st.hasEnv() {
+					runStep(&sp, st, i)
+				} else {
+					s2 := sp
+					s2.Sink, s2.Target, s2.Cells = st.Sink, st.Target, st.Cells
+					callSink(&s2, st.Renderer, targetPath(&s2, i))
+				}
+				res.Goroutines = append(res.Goroutines, settledAfter(res.Goroutines))
+				res.Procs = append(res.Procs, runtime.GOMAXPROCS(0))
 			}
 		case "fault":
 			path = targetPath(&sp, 0)
@@ -241,7 +284,7 @@ func childMain(arg string) {
 					sp.Cells = sp.CellsHist[i]
 				}
 				callSink(&sp, r, targetPath(&sp, i))
-				res.Goroutines = append(res.Goroutines, settledGoroutines())
+				res.Goroutines = append(res.Goroutines, settledAfter(res.Goroutines))
 			}
 		}
 	}()
@@ -347,24 +390,45 @@ func optNat(v int64) string {
 }
 
 func stepsKey(steps []Step) string {
+	// run-length form; a block of up to 12 steps repeated is written (a,b,...)xN
 	var parts []string
 	for i := 0; i < len(steps); {
-		j := i
-		for j < len(steps) && steps[j] == steps[i] {
-			j++
+		bestP, bestR := 1, 1
+		for p := 1; p <= 12 && i+2*p <= len(steps); p++ {
+			r := 1
+			for i+(r+1)*p <= len(steps) {
+				same := true
+				for k := 0; k < p && same; k++ {
+					same = steps[i+r*p+k] == steps[i+k]
+				}
+				if !same {
+					break
+				}
+				r++
+			}
+			if r >= 2 && p*r > bestP*bestR {
+				bestP, bestR = p, r
+			}
 		}
-		if j-i == 1 {
+		switch {
+		case bestR == 1:
 			parts = append(parts, steps[i].String())
-		} else {
-			parts = append(parts, fmt.Sprintf("%sx%d", steps[i], j-i))
+		case bestP == 1:
+			parts = append(parts, fmt.Sprintf("%sx%d", steps[i], bestR))
+		default:
+			var blk []string
+			for _, st := range steps[i : i+bestP] {
+				blk = append(blk, st.String())
+			}
+			parts = append(parts, fmt.Sprintf("(%s)x%d", strings.Join(blk, ","), bestR))
 		}
-		i = j
+		i += bestP * bestR
 	}
 	k := strings.Join(parts, ",")
-	if len(k) > 160 {
+	if len(k) > 200 {
 		h := fnv.New32a()
 		h.Write([]byte(k))
-		k = fmt.Sprintf("%.120s...#%d-steps/%08x", k, len(steps), h.Sum32())
+		k = fmt.Sprintf("%.150s...#%d-steps/%08x", k, len(steps), h.Sum32())
 	}
 	return k
 }
@@ -684,6 +748,8 @@ func checkC12(c *Ctx, r *Report) error {
 			}
 			specs = append(specs, Spec{Kind: "history", Steps: steps, Warmup: w})
 		}
+		// ---- histories whose run-time environment changes between and during the calls (env.go)
+		specs = append(specs, envHistories(c.Tier, rng, runtime.NumCPU())...)
 	}
 
 	// ---- run the children (a few at a time)
@@ -789,7 +855,11 @@ func checkC12(c *Ctx, r *Report) error {
 				r.Sample(map[string]interface{}{"case": key, "returned": res.Returned, "ms": res.Ms, "count": res.Count, "file_size": res.FileSize})
 			}
 		case "history":
-			r.Case("history/"+sp.Steps[sp.Warmup-1].String(), key, true)
+			if sp.Label != "" {
+				r.Case("history/env/"+sp.Label, key, true)
+			} else {
+				r.Case("history/"+sp.Steps[sp.Warmup-1].String(), key, true)
+			}
 			histories++
 			if !res.Returned || len(res.Goroutines) != len(sp.Steps) {
 				k := len(res.Goroutines)
@@ -803,6 +873,11 @@ func checkC12(c *Ctx, r *Report) error {
 			hb := make([]string, 0, len(sp.Steps))
 			for k, st := range sp.Steps {
 				hb = append(hb, CB(usesPool(st.Renderer)))
+				if st.maxProcs() > res.NumCPU {
+					// the model's bound is NumCPU workers; a pool sized by a GOMAXPROCS above the number of
+					// CPUs is not what the property forbids: from here on only the flatness oracle below judges
+					break
+				}
 				if k%8 != 7 && k != len(sp.Steps)-1 {
 					continue
 				}
@@ -816,6 +891,14 @@ func checkC12(c *Ctx, r *Report) error {
 			}
 			// flat after the warm-up
 			warm := res.Goroutines[sp.Warmup-1]
+			if sp.WarmMax {
+				// the warm-up has visited every setting of the history: the largest count seen there is the bound
+				for _, g := range res.Goroutines[:sp.Warmup] {
+					if g > warm {
+						warm = g
+					}
+				}
+			}
 			for k := sp.Warmup; k < len(sp.Steps); k++ {
 				// a pool-using renderer may start the pool later than the warm-up (when its earlier calls could not create their file)
 				allowed := warm
@@ -823,8 +906,12 @@ func checkC12(c *Ctx, r *Report) error {
 					allowed += res.NumCPU
 				}
 				if res.Goroutines[k] > allowed {
-					r.Violate(key, fmt.Sprintf("goroutines accumulate over repeated calls: %d before the history, %d after the warm-up (%d calls), %d after call %d (%s); counts after each call: %v (NumCPU=%d)",
-						res.Base, warm, sp.Warmup, res.Goroutines[k], k+1, sp.Steps[k], res.Goroutines, res.NumCPU), clean)
+					what := fmt.Sprintf("goroutines accumulate over repeated calls: %d before the history, %d after the warm-up (%d calls), %d after call %d (%s); counts after each call: %v (NumCPU=%d)",
+						res.Base, warm, sp.Warmup, res.Goroutines[k], k+1, sp.Steps[k], res.Goroutines, res.NumCPU)
+					if sp.WarmMax {
+						what += fmt.Sprintf("; GOMAXPROCS after each call: %v; the calls: %s", res.Procs, stepsKey(sp.Steps))
+					}
+					r.Violate(key, what, clean)
 					break
 				}
 			}
@@ -878,9 +965,10 @@ func checkC12(c *Ctx, r *Report) error {
 	r.Coverage["goroutine_observations"] = poolCases
 	r.Coverage["goroutine_observations_equal_to_model"] = poolExact
 	r.Coverage["model_compared"] = map[bool]string{true: "pinned (reproduction run)", false: "repaired"}[model == "pinned"]
-	r.Rule = "fault cases: one child process per (sink, renderer, target); scripted renderers write numbered items in the given Write sizes through the real sdf buffers, real renderers (marching cubes uniform/octree, marching squares uniform/quadtree, dual contouring 2d) render a unit sphere/circle; targets: writable file, /dev/full, missing directory, a directory, RLIMIT_FSIZE with SIGXFSZ ignored at every 4096-byte flush boundary of the STL writer (+-1 byte, and below the header size). Observed: returned within the time limit or not (with the blocked frame), STL header count. leak cases: one child per history of k renders, runtime.NumGoroutine() (settled) after each render minus before the first. history cases: one child performs a warm-up (a good call, a failing call), then the same failing call R times (R=40 quick), then good calls of every entry point of that dimension, for every entry point (ToSTL, To3MF, ToDXF, ToSVG) x failure kind (missing directory, path is a directory, /dev/full, RLIMIT_FSIZE soft limit 0/100/4096/20000 set for that call only), scripted and real renderers, plus mixed histories; every call must return and the goroutine count must not exceed its value after the warm-up. Non-trivial = a failing target with at least one item, or a leak history; distinct by the spec."
+	r.Rule = "fault cases: one child process per (sink, renderer, target); scripted renderers write numbered items in the given Write sizes through the real sdf buffers, real renderers (marching cubes uniform/octree, marching squares uniform/quadtree, dual contouring 2d) render a unit sphere/circle; targets: writable file, /dev/full, missing directory, a directory, RLIMIT_FSIZE with SIGXFSZ ignored at every 4096-byte flush boundary of the STL writer (+-1 byte, and below the header size). Observed: returned within the time limit or not (with the blocked frame), STL header count. leak cases: one child per history of k renders, runtime.NumGoroutine() (settled) after each render minus before the first. history cases: one child performs a warm-up (a good call, a failing call), then the same failing call R times (R=40 quick), then good calls of every entry point of that dimension, for every entry point (ToSTL, To3MF, ToDXF, ToSVG) x failure kind (missing directory, path is a directory, /dev/full, RLIMIT_FSIZE soft limit 0/100/4096/20000 set for that call only), scripted and real renderers, plus mixed histories; every call must return and the goroutine count must not exceed its value after the warm-up. env histories (env.go): one child performs a history whose run-time environment changes between and during the calls: runtime.GOMAXPROCS set before a call (lower-then-raise cycles, raise-then-lower, long low / long high phases, three levels in both directions, a staircase through 1,2,3,6,NumCPU-1,NumCPU,NumCPU+1,2*NumCPU,64 and back, random walks over these levels; fixed and NumCPU-relative values below, across and above the number of CPUs), GOMAXPROCS changed during a call (by the shape under evaluation every 97 evaluations, deterministic; by a free-running goroutine), several concurrent calls per step (the number in flight going up and down), the solid / resolution / entry point / renderer changing from call to call, failing sinks in between, GC percent and idle time; all 3D and 2D entry points. Oracle, NumCPU-independent: after a warm-up of two full periods (or the staircase twice) the settled goroutine count never exceeds the largest count seen during the warm-up; a reading above everything seen before is re-read up to 4 times 10 ms apart and the smallest reading counts. Steps up to the first GOMAXPROCS above NumCPU are also compared with the model's pool bound. Non-trivial = a failing target with at least one item, or a leak history; distinct by the spec."
 	r.Trusted = append(r.Trusted,
-		"hand model coq/Sys/Pipeline.v of the ToXXX / writer-goroutine protocol and of the evalRoutines pool, tied by differential execution (cases_fault_*.v, cases_goroutines_*.v)",
+		"model coq/Sys/Pipeline.v of the ToXXX / writer-goroutine protocol and of the evalRoutines pool, tied twice: by translation (harness/sysgen extracts the statement skeleton of ToTriangles / ToSTL / To3MF / ToDXF / ToSVG, WriteTriangles / writeSTL / write3MF / writeDXF / writeSVG with their goroutines, evalRoutines and marchingCubes from the current source into Generated/SysProgs.v; Sys/PipeProg.v gives a call a small-step meaning, proves it a refinement of Pipeline.next (sim_step) and proves that each of the five extracted calls always returns, C12_source_*; Sys/PoolProg.v proves the extracted pool start equal to render_pool Repaired) and by differential execution (cases_fault_*.v, cases_goroutines_*.v)",
+		"harness/sysgen (classification of Data statements, helper inlining) and the reading of each primitive statement by the interpreter of PipeProg.v; inside r.Render the renderer is taken to block only in its channel sends (one rendezvous per batch)",
 		"'does not return' is observed as 'not returned after "+fmt.Sprint(timeout)+" ms' plus the goroutine dump of the child; the operating system is not modelled",
 		"index of the first failing STL record for a byte limit is computed by the harness from the bufio block size 4096, header 84, record 50 (stlFailIndex)")
 	r.Assumptions = append(r.Assumptions,
